@@ -343,15 +343,137 @@ fn end_to_end(ctx: &mut Ctx) {
     }
 }
 
+
+/// REQ with 2..3 scripted REP partners, one of which dies: whatever the rotation has to skip,
+/// every request that reaches a partner is exactly one delimiter + the payload, every reply comes
+/// back with exactly the delimiter removed, and a message handed back is the payload as given.
+fn req_partner_gone(ctx: &mut Ctx) {
+    world::swarm(ctx, SwarmOpts::default());
+    let npeers = 2 + ctx.plan(2) as usize;
+    let dead = ctx.plan(npeers as u64) as usize;
+    let by_reset = ctx.plan_bool();
+    let pre_rounds = ctx.plan(3) as usize;
+    let nreq = 2 * npeers + 2;
+    let payloads: Vec<Vec<Vec<u8>>> = (0..nreq + npeers * pre_rounds).map(|i| draw_payload(ctx, 7 * i)).collect();
+    let replies: Vec<Vec<u8>> = (0..npeers).map(|p| format!("reply-from-{p}").into_bytes()).collect();
+    let viol: Viol = Rc::new(RefCell::new(Vec::new()));
+    let done = Rc::new(RefCell::new(false));
+    let (vl, dn) = (viol.clone(), done.clone());
+    let taps: Rc<RefCell<Vec<std::sync::Arc<rt::net::Conn>>>> = Rc::new(RefCell::new(Vec::new()));
+    let (tp, pl2, rp2) = (taps.clone(), payloads.clone(), replies.clone());
+    rt::task::spawn_local("app", async move {
+        let (payloads, replies) = (pl2, rp2);
+        let mut req = ReqSocket::new();
+        let ep = req.bind("tcp://127.0.0.1:0").await.expect("bind").to_string();
+        let victim: Rc<RefCell<Option<RawPeer>>> = Rc::new(RefCell::new(None));
+        for p in 0..npeers {
+            let (ep, victim, tp, reply) = (ep.clone(), victim.clone(), tp.clone(), replies[p].clone());
+            rt::task::spawn_local("partner", async move {
+                let Ok(mut peer) = RawPeer::connect(&ep) else { return };
+                tp.borrow_mut().push(peer.conn.clone());
+                if peer.hello("REP", None).await.is_err() {
+                    return;
+                }
+                let mut answered = 0usize;
+                loop {
+                    if p == dead && answered >= pre_rounds {
+                        *victim.borrow_mut() = Some(peer);
+                        return world::park().await;
+                    }
+                    if !peer.wait_messages(answered + 1).await {
+                        break;
+                    }
+                    let n = peer.inbound().messages().len();
+                    while answered < n {
+                        if peer.send_msg(&[vec![], reply.clone(), vec![], b"tail".to_vec()]).await.is_err() {
+                            return world::park().await;
+                        }
+                        answered += 1;
+                    }
+                }
+                world::park().await;
+            });
+        }
+        for _ in 0..3 {
+            rt::task::idle().await;
+        }
+        let mut next = 0usize;
+        let mut failed = 0usize;
+        for r in 0..npeers * pre_rounds + nreq {
+            if r == npeers * pre_rounds {
+                rt::task::idle().await;
+                let Some(v) = victim.borrow_mut().take() else {
+                    vl.borrow_mut().push(("harness", "the victim partner was not parked when expected".into()));
+                    return world::park().await;
+                };
+                if by_reset {
+                    v.reset();
+                    drop(v);
+                } else {
+                    v.close();
+                }
+            }
+            let q = payloads[next].clone();
+            next += 1;
+            match req.send(to_zmq(&q)).await {
+                Ok(()) => match rt::future::or_idle(req.recv()).await {
+                    Some(Ok(m)) => {
+                        let f = from_zmq(&m);
+                        if f.len() != 3 || !f[0].starts_with(b"reply-from-") || !f[1].is_empty() || f[2] != b"tail" {
+                            vl.borrow_mut().push(("req_recv_payload_modified", format!("request {r}: the reply [,reply-from-p,,tail] on the wire was returned as {}", show_msg(&f))));
+                            return world::park().await;
+                        }
+                    }
+                    Some(Err(_)) | None => failed += 1,
+                },
+                Err(ZmqError::ReturnToSender { message, .. }) => {
+                    failed += 1;
+                    if from_zmq(&message) != q {
+                        vl.borrow_mut().push(("returned_message_not_intact", format!("request {r}: send handed back {} instead of {}", show_msg(&from_zmq(&message)), show_msg(&q))));
+                        return world::park().await;
+                    }
+                }
+                Err(_) => failed += 1,
+            }
+            if failed > 2 {
+                break;
+            }
+        }
+        rt::task::idle().await;
+        *dn.borrow_mut() = true;
+        world::park().await;
+        drop(req);
+    });
+    let end = ctx.sim.run(400_000);
+    finish(ctx, end, &viol, *done.borrow(), "REQ with a partner that goes away");
+    // every request on any partner's connection: exactly one delimiter, then one of the payloads as given
+    if *done.borrow() {
+        for (i, c) in taps.borrow().iter().enumerate() {
+            for m in rc::parse_stream(&c.tap_from(1)).messages() {
+                let ok = m.len() >= 2 && m[0].is_empty() && payloads.iter().any(|p| p[..] == m[1..]);
+                if !ok {
+                    ctx.violation("req_wire_envelope_wrong", format!("a request reached partner {i} as {} - expected exactly one empty delimiter followed by the application's frames (partner {dead} had gone away by {})", show_msg(&m), if by_reset { "reset" } else { "close" }));
+                    break;
+                }
+            }
+        }
+        ctx.nontrivial();
+    }
+    if ctx.want_sample {
+        ctx.out.sample = Some(format!("REQ with {npeers} partners; partner {dead} goes away after {pre_rounds} rounds each; envelopes checked on every partner's connection"));
+    }
+}
+
 pub fn def() -> PropDef {
     PropDef {
         id: "C07",
         level: "exploration",
-        rule: "rep_envelope: case index walks peer type (REQ/DEALER), request form (6 normal : single-frame : delimiter-last) and prefix depth 0..3, one request in five is left unanswered before the next recv, payload frame lengths drawn from the boundary grid with empty frames inside; req_envelope / end_to_end: drawn payloads; every case also draws transport segmentation and schedule; non-trivial = degenerate form, non-empty routing prefix, empty frame inside a payload, or two real sockets; distinct = distinct (plan, schedule, transport) hashes",
+        rule: "rep_envelope: case index walks peer type (REQ/DEALER), request form (6 normal : single-frame : delimiter-last) and prefix depth 0..3, one request in five is left unanswered before the next recv, payload frame lengths drawn from the boundary grid with empty frames inside; req_envelope / end_to_end: drawn payloads; req_partner_gone: REQ with 2..3 scripted partners of which one dies (the rotation then has stale entries to skip): every request on every partner's tap is one delimiter + the frames as given, replies with empty frames inside come back with exactly the delimiter removed, a handed-back message is intact; every case also draws transport segmentation and schedule; non-trivial = degenerate form, non-empty routing prefix, empty frame inside a payload, or two real sockets; distinct = distinct (plan, schedule, transport) hashes",
         assumptions: &["requests without any empty frame are outside the statement and are not generated (except the single-frame form, which cannot hold delimiter + payload)"],
         strata: vec![
             Stratum { name: "rep_envelope", quick: 60_000, thorough: (1_000_000) * 2, exhaustive: (false, false), run: rep_envelope, what: "scripted REQ/DEALER/ROUTER-chain requests into a REP socket, reply envelope on the wire" },
             Stratum { name: "req_envelope", quick: 30_000, thorough: (500_000) * 2, exhaustive: (false, false), run: req_envelope, what: "REQ socket against a scripted REP" },
+            Stratum { name: "req_partner_gone", quick: 30_000, thorough: 1_000_000, exhaustive: (false, false), run: req_partner_gone, what: "REQ with 2..3 partners, one goes away: envelope of every request on every partner's connection, replies, handed-back messages" },
             Stratum { name: "end_to_end", quick: 25_000, thorough: (500_000) * 2, exhaustive: (false, false), run: end_to_end, what: "REQ socket against REP socket" },
         ],
     }
